@@ -30,7 +30,7 @@ NS = {'T': T, 'S': S, 'A': A, 'Path': Path, 'len': len, 'slice': slice}
 
 # step terms; argument sources are python expressions evaluated in NS
 ITEM_ARGS = ["'k'", "'it\\'s \"q\"'", "0", "-1", "None", "1.5", "True", "1", "1.0", "'A'", "(1, 2)", "(1,)", "()", "\"it's\"", "'d.t'", "'q\"'",
-             "slice(1, 2)", "slice(None, None, 2)", "(slice(1, 2), 3)", "len", "T.a",
+             "slice(0, 2)", "slice(None, 0, 2)", "(slice(3, 0, -1), 0)", "len", "T.a",       # bounds that are 0 are bounds
              # longer than every default limit of reprlib.Repr (string 30, long 40, tuple 6, nesting 6)
              "('%s', %s, (1, 2, 3, 4, 5, 6, 7, 8), ((((((((1,),),),),),),),))" % ('long-string-' * 4, '1234567890' * 5)]
 CALL_ARGS = [("", ""), ("1, 'x'", ""), ("", "k=None"), ("T.a", ""), ("len", ""), ("", "k='it\\'s \"q\"'"), ("'it\\'s \"q\"'", "j=('a\\'b\"c',)")]
@@ -354,6 +354,13 @@ def run_seqlaws(case):
         cat = Path(pre, suf)
         if steps_tuple(cat) != ref or not (cat == p) or (cat != p):
             return R({'expected': 'Path(%r, %r) == p' % (pre, suf), 'observed': repr(cat), **where}, 'concat')
+        # joining leaves its operands as they were (a prefix that is kept and joined again), whatever is appended
+        cat2 = Path(pre, 'appended', suf)
+        cat3 = Path(pre, T['again'])
+        if steps_tuple(pre) != ref[:k] or steps_tuple(suf) != ref[k:] or steps_tuple(cat) != ref or steps_tuple(cat3) != ref[:k] + (('[', 'again'),):
+            return R({'expected': 'Path(pre, ...) builds a new Path; pre stays %r, suf %r, the first join %r' % (ref[:k], ref[k:], ref),
+                      'observed': 'pre %r, suf %r, first join %r, third %r' % (steps_tuple(pre), steps_tuple(suf), steps_tuple(cat), steps_tuple(cat3)), **where},
+                     'operand-mutated')
         if k < n and (pre == p or not (pre != p)):
             return R({'expected': 'strict prefix %r != p' % (pre,), 'observed': 'compares equal', **where}, 'eq')
         checked += 3
